@@ -217,8 +217,10 @@ def run_shard(spec, ctx, acc):
             pay = st.tuples(frames.payload_for(t, max_payload=3000 if tier == "quick" else 65535),
                             st.one_of(st.none(), st.none(), st.integers(0, 40))).map(
                 lambda t2: dict(base, route="payload", payload=t2[0][1], other_class=t2[1]))
+            from vp.props import c13
+
             core.hyp_search(acc, pay, check, seed=core.derive(ctx["seed"], PROP, "p", t.label),
-                            max_examples=n, known=known, rounds=2)
+                            max_examples=n, known=known, rounds=2, history=c13.related_history)
             if c16.kw_constructible(t):
                 forced = catalog.forced_for(t) or {}
 
